@@ -168,6 +168,7 @@ def make_exception(kind):
         "OSError": lambda: OSError(5, "io"),
         "AssertionError": lambda: AssertionError("assert"),
         "RuntimeError": lambda: RuntimeError("runtime"),
+        "NotImplementedError": lambda: NotImplementedError("not here"),
         "ExceptionGroup": lambda: ExceptionGroup("group", [ValueError("inner")]),
         "InvalidStateError": lambda: __import__("concurrent.futures").futures.InvalidStateError("state"),
         "FuturesCancelledError": lambda: __import__("concurrent.futures").futures.CancelledError("cf"),
